@@ -17,7 +17,11 @@ ASSUMPTIONS = ['totality of the grammar stage (every root accepts every normal-f
                'Python recursion limits are not modelled (nesting bounded at 40 by the property)']
 
 ATT = ('ATTACHMENT', 'APPENDIX', 'SCHEDULE', 'ANNEXURE')
-_ATT_OK = re.compile(r'(?:ATTACHMENT|APPENDIX|SCHEDULE|ANNEXURE)(?:\.[^ \n|{}.]*)*(?:\{[^}\n]*\})?(?: |$)')
+# attachment_marker block_attrs? (space ... | eol), written with possessive quantifiers so that it commits the way the PEG does:
+#   block_attrs <- ('.' class_name?)* ('{' block_attr? space? ('|' space? block_attr?)* '}')?
+#   block_attr  <- [^ \n|{}]+ (' '+ [^\n|}]*)?
+_ATTR = r'[^ \n|{}]++(?: ++[^\n|}]*+)?+'
+_ATT_OK = re.compile(r'(?:ATTACHMENT|APPENDIX|SCHEDULE|ANNEXURE)(?:\.[^ \n|{}.]*+)*+(?:\{(?:%s)?+ *+(?:\| *+(?:%s)?+)*+\})?+(?: |$)' % (_ATTR, _ATTR))
 
 def legal_char(c):
     o = ord(c)
